@@ -55,7 +55,14 @@ INVENT = ("Position::start", "Position::new", "::at_start", "::at_rc")
 
 def r2_no_invented_positions(ctx, rule="C11.R2"):
     prog = ctx.prog
-    allowed = json.load(open(os.path.join(VERIF, "tables", "invented_positions.json")))["allowed"]
+    allowed = dict(json.load(open(os.path.join(VERIF, "tables", "invented_positions.json")))["allowed"])
+    # a tabled function that was renamed: an untabled function of the same type / module takes over the
+    # entry of a tabled one that no longer exists (one for one)
+    present = {(prog.enclosing_fn(f) or f).path.split("::", 1)[1] for f in prog.fns.values()}
+    gone = {}
+    for k in sorted(allowed):
+        if k not in present:
+            gone.setdefault(k.rsplit("::", 1)[0], []).append(k)
     n = 0
     for fn in sorted(prog.fns.values(), key=lambda f: f.id):
         if fn.crate not in ("rusty_parser", "rusty_linter", "rusty_basic", "rusty_basic.bin") or fn.kind == "const":
@@ -67,6 +74,9 @@ def r2_no_invented_positions(ctx, rule="C11.R2"):
             n += 1
             owner = prog.enclosing_fn(fn) or fn
             name = owner.path.split("::", 1)[1]
+            if name not in allowed and gone.get(name.rsplit("::", 1)[0]):
+                old_name = gone[name.rsplit("::", 1)[0]].pop(0)
+                allowed[name] = allowed[old_name] + " (tabled as %s)" % old_name.rsplit("::", 1)[1]
             key = "%s:%s:%s" % (rule, name, cp.split("::")[-1])
             if name in allowed:
                 ctx.ok(rule, key, "%s:%s" % (fn.file, t.get("ln")), "tabled: " + allowed[name])
@@ -186,8 +196,7 @@ def r4_stack_trace(ctx, rule="C11.R4"):
                       "handler is active: after a handled failure inside a SUB the trace is empty and the "
                       "caller's PopStack removes from an empty vector" % (v, ds[0]))
     # the None edge of interpret is the only place allowed to drain
-    sws = [s for s in mir.enum_switches(prog, interp.body) if s.adt.endswith("::ErrorHandler")]
-    sw2 = sws[0]
+    interp, sw2 = common.error_dispatch(prog)
     pvi = mir.Prov(interp.body)
     ok = True
     n = 0
